@@ -1,6 +1,7 @@
 package props
 
 import (
+	"errors"
 	"bytes"
 	"fmt"
 	"image"
@@ -28,6 +29,45 @@ func encodeImg(img image.Image, o *gen.Opts) ([]byte, error) {
 	var buf bytes.Buffer
 	err := webp.Encode(&buf, img, o.Build())
 	return buf.Bytes(), err
+}
+
+// faultWriter accepts budget bytes and then fails: the injected fault for "a write error at byte k".
+type faultWriter struct {
+	buf    bytes.Buffer
+	budget int
+	failed bool
+}
+
+var errInjectedWrite = errors.New("verif: injected write failure")
+
+func (w *faultWriter) Write(p []byte) (int, error) {
+	if w.failed {
+		return 0, errInjectedWrite
+	}
+	if len(p) > w.budget {
+		n := w.budget
+		w.buf.Write(p[:n])
+		w.budget, w.failed = 0, true
+		return n, errInjectedWrite
+	}
+	w.budget -= len(p)
+	w.buf.Write(p)
+	return len(p), nil
+}
+
+// faultBudgets picks byte positions inside a stream of total bytes at which the writer fails:
+// container header boundaries, the last bytes (pad byte, trailing chunk), and one drawn position.
+func faultBudgets(total, permille int) []int {
+	cand := []int{0, 1, 11, 12, 19, 20, 29, 30, total - 2, total - 1, int(int64(total) * int64(permille) / 1000)}
+	var out []int
+	seen := map[int]bool{}
+	for _, c := range cand {
+		if c >= 0 && c < total && !seen[c] {
+			seen[c] = true
+			out = append(out, c)
+		}
+	}
+	return out
 }
 
 func decodeBytes(b []byte) (image.Image, error) { return webp.Decode(bytes.NewReader(b)) }
